@@ -6,6 +6,7 @@
 //   drv_codec poison   <pattern>                 -> POI {json}: encodings of default-constructed objects built in
 //                                                   heap memory pre-filled with <pattern>
 #include <set>
+#include <sstream>
 #include <sys/wait.h>
 #include <unistd.h>
 
@@ -106,6 +107,11 @@ static FrameResult frame_record(ObjectHeaderBase * o, uint32_t code, const std::
     std::vector<uint8_t> & b = m.buf;
     long emitted = (long) b.size();
     r.putb("encThrew", threw).put("emitted", emitted);
+    {
+        uint64_t h = 1469598103934665603ull;
+        for (uint8_t c : b) { h ^= c; h *= 1099511628211ull; }
+        r.puts("bytesHash", std::to_string(h));
+    }
     bool sig = emitted >= 16 && memcmp(b.data(), "LOBJ", 4) == 0;
     long hs = emitted >= 16 ? kit::rd16(b, 4) : -1, hv = emitted >= 16 ? kit::rd16(b, 6) : -1;
     long os = emitted >= 16 ? (long) kit::rd32(b, 8) : -1, ot = emitted >= 16 ? (long) kit::rd32(b, 12) : -1;
@@ -215,6 +221,7 @@ int main(int argc, char ** argv) {
     if (mode == "frames") {
         unsigned long seed = strtoul(argv[2], nullptr, 10);
         bool thorough = std::string(argv[3]) == "thorough";
+        if (argc > 4) g_poison = atoi(argv[4]);      // heap pre-filled with this pattern (C14)
         std::vector<std::pair<std::string, std::vector<size_t>>> plans = {
             {"empty", {0}}, {"one", {1}}, {"two", {2}}, {"three", {3}}, {"four", {4}}, {"five", {5}},
             {"mixed", {7, 0, 2, 13}}, {"k300", {300, 1}}, {"big64k1", {65537, 3}},
@@ -521,6 +528,105 @@ int main(int argc, char ** argv) {
         JObj o;
         o.puts("driver", "codec_images").put("paths", imgs).put("derived", derived);
         printf("RESULT %s\n", o.str().c_str());
+        return 0;
+    }
+    if (mode == "files") {
+        // drv_codec files <dir> <seed> <quick|thorough> [poison]: sequences of objects of all classes written through File
+        // and read back through File over a configuration grid (native threads).
+        std::string dir = argv[2];
+        unsigned long seed = strtoul(argv[3], nullptr, 10);
+        bool thorough = std::string(argv[4]) == "thorough";
+        if (argc > 5) g_poison = atoi(argv[5]);
+        std::set<long> skip;
+        if (const char * e = getenv("VERIF_SKIP_CODES")) {
+            std::stringstream ss(e);
+            std::string t;
+            while (std::getline(ss, t, ',')) if (!t.empty()) skip.insert(atol(t.c_str()));
+        }
+        std::vector<uint32_t> codes;
+        for (uint32_t c : known_codes()) if (c != 10 && !skip.count((long) c)) codes.push_back(c);
+        std::vector<long> csizes = {1, 17, 100, 4096, 0x1ffff, 0x20000, 0x20001, 0x100000};
+        if (thorough) { csizes.push_back(3); csizes.push_back(0x400000); csizes.push_back(65536); }
+        std::mt19937_64 rng(seed);
+        long idx = 0;
+        size_t nextCode = 0;
+        for (int level = 0; level <= 9; level++) {
+            if (!thorough && !(level == 0 || level == 1 || level == 6 || level == 9)) continue;
+            for (long C : csizes) {
+                for (int rp = 0; rp <= 1; rp++) {
+                    if (!thorough && ((level + rp + (int) (C % 5)) % 2)) continue;
+                    long nobj = C <= 17 ? 5 : (1 + (long) (rng() % 40));
+                    std::string fn = dir + "/f_" + std::to_string((long) getpid()) + "_" + std::to_string(idx++) + ".blf";
+                    std::vector<std::string> want, wantCls;
+                    {
+                        File f;
+                        f.setDefaultLogContainerSize((uint32_t) C);
+                        f.compressionLevel = level;
+                        f.writeRestorePoints = rp != 0;
+                        f.open(fn.c_str(), std::ios_base::out);
+                        for (long i = 0; i < nobj; i++) {
+                            // every class appears: codes are taken round robin over the whole run
+                            uint32_t code = codes[nextCode++ % codes.size()];
+                            ObjectHeaderBase * o = File::createObject((ObjectType) code);
+                            size_t big = (C > 17 && rng() % 6 == 0) ? (size_t) std::min<long>(2 * C + 7, 300000) : (size_t) (rng() % 40);
+                            refl::Sizer sz({big, (size_t) (rng() % 7), (size_t) (rng() % 3)});
+                            refl::visit_dyn(o, sz);
+                            refl::Randomizer rz(rng, rng() % 2);
+                            refl::visit_dyn(o, rz);
+                            // normal form: what the object-level codec gives back for this object
+                            MemFile m;
+                            o->write(m);
+                            ObjectHeaderBase * o1 = File::createObject((ObjectType) kit::rd32(m.buf, 12));
+                            MemFile in;
+                            in.buf = m.buf;
+                            if (o1) { try { o1->read(in); } catch (...) {} }
+                            want.push_back(o1 ? dump(o1, false) : "none");
+                            wantCls.push_back(o1 ? refl::class_name(o1) : "none");
+                            delete o1;
+                            f.write(o);
+                        }
+                        f.close();
+                    }
+                    long delivered = 0, mismatched = 0;
+                    std::string first;
+                    bool eofOk = false;
+                    {
+                        File f;
+                        f.open(fn.c_str(), std::ios_base::in);
+                        for (;;) {
+                            ObjectHeaderBase * o = f.read();
+                            if (!o) break;
+                            if (delivered < (long) want.size()) {
+                                std::string got = dump(o, false);
+                                if (got != want[(size_t) delivered] || wantCls[(size_t) delivered] != refl::class_name(o)) {
+                                    mismatched++;
+                                    if (first.empty()) first = wantCls[(size_t) delivered] + " #" + std::to_string(delivered) + ": " + first_diff(want[(size_t) delivered], got);
+                                }
+                            } else mismatched++;
+                            delivered++;
+                            delete o;
+                        }
+                        eofOk = f.eof() && !f.good();
+                        f.close();
+                    }
+                    std::vector<uint8_t> bytes = kit::read_file(fn);
+                    uint64_t h = 1469598103934665603ull;
+                    for (uint8_t c : bytes) { h ^= c; h *= 1099511628211ull; }
+                    unlink(fn.c_str());
+                    JObj r;
+                    r.puts("name", "files/C" + std::to_string(C) + "/level" + std::to_string(level) + "/rp" + std::to_string(rp) + "#" + std::to_string(idx));
+                    r.put("C", C).put("level", (long) level).putb("rp", rp != 0).put("n", nobj).put("delivered", delivered)
+                        .put("mismatched", mismatched).putb("eofOk", eofOk).puts("hash", std::to_string(h)).put("size", (long) bytes.size());
+                    if (!first.empty()) {
+                        std::string dd;
+                        for (char c : first) dd += (isalnum((unsigned char) c) || c == '.' || c == '=' || c == ' ' || c == '!' || c == '#' || c == ':') ? c : '?';
+                        r.puts("first", dd);
+                    }
+                    printf("FILE %s\n", r.str().c_str());
+                    fflush(stdout);
+                }
+            }
+        }
         return 0;
     }
     return 2;
